@@ -770,6 +770,11 @@ def python_source(am, prog, clsname="M"):
         lines.append(f"class {cname}({parent}):")
         lines += ["    " + b for b in body] or ["    pass"]
         lines.append("")
+        if not last:
+            # the base class is a machine of its own and is *used* before the subclass is written: one instance per
+            # state, `allowed_events` read — the subclass must not be affected by anything that remembered
+            lines.append(f"use_first({cname})")
+            lines.append("")
     return "\n".join(lines)
 
 
